@@ -89,6 +89,13 @@ def analyse(fn, facts, E, is_prim_call, keys_by_sig):
                 cur = p
                 i -= 1
                 continue
+            if k == "Cond" and (p.get("a") is cur or p.get("b") is cur):
+                # `flag ? emit() : 0` contributes the count on the branch that emits
+                other = p.get("b") if p.get("a") is cur else p.get("a")
+                if const_value(other) == 0 or (isinstance(unwrap(other), dict) and is_emitter_call(unwrap(other))):
+                    cur = p
+                    i -= 1
+                    continue
             if k == "Bin" and p.get("op") == "+=" and p.get("rhs") is cur:
                 lp = path(p["lhs"])
                 if lp and len(lp) == 1 and lp[0].startswith("l:"):
@@ -99,6 +106,16 @@ def analyse(fn, facts, E, is_prim_call, keys_by_sig):
                 break
             if k == "Bin" and p.get("op") == "=" and p.get("rhs") is cur:
                 lp = path(p["lhs"])
+                # acc = acc + emit(...)  is the same as  acc += emit(...)
+                def _plus_terms(e_):
+                    u_ = unwrap(e_)
+                    if isinstance(u_, dict) and u_.get("k") == "Bin" and u_.get("op") == "+":
+                        return _plus_terms(u_["lhs"]) + _plus_terms(u_["rhs"])
+                    return [u_]
+                if lp and len(lp) == 1 and lp[0].startswith("l:") and any(path(t_) == lp for t_ in _plus_terms(cur) if isinstance(t_, dict)):
+                    accs.setdefault(lp[0], []).append((order[id(p)], "+="))
+                    verdict = Site(fn, n, True, "added to accumulator %s" % lp[0].split("#")[0][2:], lp[0])
+                    break
                 if lp and len(lp) == 1 and lp[0].startswith("l:"):
                     prior = [x for x in accs.get(lp[0], []) if x[0] < order[id(p)] and x[1] in ("+=", "initcall", "=")]
                     accs.setdefault(lp[0], []).append((order[id(p)], "="))
@@ -155,6 +172,11 @@ def analyse(fn, facts, E, is_prim_call, keys_by_sig):
             return (False if (a is False or b is False) else None), "sum with an uncounted part: %s" % show(u)
         return False, show(u)
 
+    ret_guards = {}
+    env_r = Env(fn["body"])
+    for st, g, loops in ir.guarded_statements(fn["body"], env_r):
+        if st.get("k") == "Return":
+            ret_guards[id(st)] = g
     for n in ir.walk(fn["body"]):
         if n.get("k") != "Return":
             continue
@@ -167,8 +189,12 @@ def analyse(fn, facts, E, is_prim_call, keys_by_sig):
             continue
         cv = const_value(e)
         before = first_emit is None or order[id(n)] < first_emit
+        g_here = ret_guards.get(id(n), ("T",))
+        acc_zero = any(a[0] == "not" and a[1][0] == "nz" and ("%s" % a[1][1]) in real_accs for a in ir.conjuncts(g_here))
         if cv == 0 and before:
             rets.append((n, True, "returns 0 before any emission"))
+        elif cv == 0 and acc_zero:
+            rets.append((n, True, "returns 0 on the path where the accumulator is 0"))
         elif cv is not None:
             rets.append((n, False, "returns constant %s on a path that has already emitted bytes" % cv))
         else:
